@@ -150,7 +150,11 @@ func runC10(c *core.Ctx) {
 			if td == nil {
 				continue
 			}
-			for _, df := range defects {
+			for di, df := range defects {
+				// quick: documents one mutation away from a base get every second defect kind (the bases get all of them)
+				if !c.Thorough() && dist > 0 && di%2 == 1 && df.Needs != "interface" && df.Needs != "union" {
+					continue
+				}
 				// a union container only holds fragments (its member fragments are visited as object sites): only the
 				// defect made for it applies
 				if (td.Kind == world.KUnion) != (df.Needs == "union") {
@@ -306,7 +310,7 @@ func runC10(c *core.Ctx) {
 		}
 		return true
 	})
-	c.R.Bound = fmt.Sprintf("base documents + %d mutations; one defect at every selection-set site", k)
+	c.R.Bound = fmt.Sprintf("base documents + %d mutations; one defect at every selection-set site (quick: every second defect kind on the mutated documents)", k)
 	if !completed {
 		c.Cap("deadline reached")
 	}
